@@ -62,7 +62,10 @@ def canon(obj, _depth=0):  # pylint: disable=too-many-return-statements,too-many
         if obj.tzinfo is None:
             return ('dt-naive', obj.isoformat())
         delta = obj - datetime.datetime(1970, 1, 1, tzinfo=datetime.timezone.utc)
-        return ('dt', delta.days, delta.seconds, delta.microseconds)
+        # the instant and the offset it is expressed in: both are observable (isoformat, serialised forms)
+        offset = obj.utcoffset()
+        return ('dt', delta.days, delta.seconds, delta.microseconds,
+                None if offset is None else offset.days * 86400 + offset.seconds)
     if isinstance(obj, datetime.timedelta):
         return ('td', obj.days, obj.seconds, obj.microseconds)
     if isinstance(obj, datetime.date):
@@ -105,12 +108,15 @@ def canon(obj, _depth=0):  # pylint: disable=too-many-return-statements,too-many
 
 
 def _extra_dict(obj, depth):
-    """attrs classes whose __init__ sets further instance attributes (e.g. OpenVPN hard reset)."""
+    """attrs classes whose __init__ sets further instance attributes (e.g. OpenVPN hard reset).  Private
+    attributes outside the declared fields (memoised results) are not object state: whether a memo is right is
+    judged by what the observers return, not by its presence."""
     data = getattr(obj, '__dict__', None)
     if not data:
         return ()
     names = {field.name for field in attr.fields(type(obj))}
-    extra = tuple(sorted((key, canon(value, depth + 1)) for key, value in data.items() if key not in names))
+    extra = tuple(sorted((key, canon(value, depth + 1)) for key, value in data.items()
+                         if key not in names and not key.startswith('_')))
     return (('__extra__', extra), ) if extra else ()
 
 
